@@ -59,7 +59,7 @@ class Unit:
     def unit_rules(self):
         table = dict(rules.RULES)
         for r in self.cfg.get("rule", []):
-            table[r["name"]] = rules.generic([(p[0], p[1]) for p in r["pairs"]], r["name"])
+            table[r["name"]] = rules.generic([(p[0], p[1]) for p in r.get("pairs", [])], r["name"], r.get("calls", []))
         return table
 
     def apply_rules(self, text, names, cfg, fid):
